@@ -19,3 +19,11 @@ func VerifLockFree(vg Vigil) bool {
 	}
 	return false
 }
+
+// VerifHoldLock takes the condition variable's mutex on behalf of the harness (which can then
+// line goroutines up on it) and returns the function that releases it.
+func VerifHoldLock(vg Vigil) (release func()) {
+	v := vg.(*vigil)
+	v.mu.Lock()
+	return v.mu.Unlock
+}
